@@ -127,10 +127,10 @@ Section SolveProofs.
   Qed.
 
   (* what _solve_euler/_solve_heun return, in the three possible situations *)
-  Theorem solve_rows s aliased T dt dts y0 c0 t0 :
+  Theorem solve_rows s T dt dts y0 c0 t0 :
     1 <= rnd (dts / dt) -> cdiv (rnd (T / dt)) (rnd (dts / dt)) = rnd (T / dts) ->
-    solve f s aliased T dt dts y0 c0 t0 =
-    Rows (map (fun k => fst (traj (step_of f s aliased dt) t0 0 y0 c0 (k * rnd (dts / dt)))) (seq 0 (rnd (T / dts)))).
+    solve f s T dt dts y0 c0 t0 =
+    Rows (map (fun k => fst (traj (step_of f s dt) t0 0 y0 c0 (k * rnd (dts / dt)))) (seq 0 (rnd (T / dts)))).
   Proof.
     intros Hss Hfit. unfold solve.
     destruct (rnd (dts / dt) =? 0) eqn:E0; [lia|].
@@ -139,9 +139,9 @@ Section SolveProofs.
     unfold finish. now rewrite map_length, seq_length, Nat.eqb_refl.
   Qed.
 
-  Theorem solve_index_error s aliased T dt dts y0 c0 t0 :
+  Theorem solve_index_error s T dt dts y0 c0 t0 :
     1 <= rnd (dts / dt) -> rnd (T / dts) < cdiv (rnd (T / dt)) (rnd (dts / dt)) ->
-    solve f s aliased T dt dts y0 c0 t0 = ErrIndex.
+    solve f s T dt dts y0 c0 t0 = ErrIndex.
   Proof.
     intros Hss Hfit. unfold solve.
     destruct (rnd (dts / dt) =? 0) eqn:E0; [lia|].
@@ -150,9 +150,9 @@ Section SolveProofs.
     destruct (cdiv (rnd (T / dt)) (rnd (dts / dt)) <=? rnd (T / dts)) eqn:E; [lia|reflexivity].
   Qed.
 
-  Theorem solve_short s aliased T dt dts y0 c0 t0 :
+  Theorem solve_short s T dt dts y0 c0 t0 :
     1 <= rnd (dts / dt) -> cdiv (rnd (T / dt)) (rnd (dts / dt)) < rnd (T / dts) ->
-    exists rec, solve f s aliased T dt dts y0 c0 t0 = Short rec (rnd (T / dts) - cdiv (rnd (T / dt)) (rnd (dts / dt))) /\
+    exists rec, solve f s T dt dts y0 c0 t0 = Short rec (rnd (T / dts) - cdiv (rnd (T / dt)) (rnd (dts / dt))) /\
                 length rec = cdiv (rnd (T / dt)) (rnd (dts / dt)).
   Proof.
     intros Hss Hfit. unfold solve.
@@ -165,38 +165,34 @@ Section SolveProofs.
     split; [reflexivity|]. now rewrite map_length, seq_length.
   Qed.
 
-  Theorem solve_zero_div s aliased T dt dts y0 c0 t0 :
-    rnd (dts / dt) = 0 -> 1 <= rnd (T / dt) -> solve f s aliased T dt dts y0 c0 t0 = ErrZeroDiv.
+  Theorem solve_zero_div s T dt dts y0 c0 t0 :
+    rnd (dts / dt) = 0 -> 1 <= rnd (T / dt) -> solve f s T dt dts y0 c0 t0 = ErrZeroDiv.
   Proof.
     intros H0 H1. unfold solve. rewrite H0. cbn [Nat.eqb].
     destruct (rnd (T / dt) =? 0) eqn:E; [lia|reflexivity].
   Qed.
-
-  Lemma step_of_fresh s aliased dt : heun_rhs_fresh s aliased = true ->
-    step_of f s aliased dt = step_of f s false dt.
-  Proof. destruct s, aliased; cbn; intros H; try reflexivity; discriminate. Qed.
 
   Lemma rows_fit_true T dt dts : rows_fit T dt dts = true ->
     1 <= rnd (dts / dt) /\ cdiv (rnd (T / dt)) (rnd (dts / dt)) = rnd (T / dts).
   Proof. unfold rows_fit. intros H. apply andb_prop in H as [H1 H2]. split; lia. Qed.
 
   (* C03, solver level: under the guards the record is the list of iterates at the multiples of store_step *)
-  Theorem solve_partial s aliased T dt dts y0 c0 t0 :
-    rows_fit T dt dts = true -> heun_rhs_fresh s aliased = true ->
-    solve f s aliased T dt dts y0 c0 t0 = Rows (spec_rows f s T dt dts y0 c0 t0).
+  Theorem solve_partial s T dt dts y0 c0 t0 :
+    rows_fit T dt dts = true ->
+    solve f s T dt dts y0 c0 t0 = Rows (spec_rows f s T dt dts y0 c0 t0).
   Proof.
-    intros Hfit Hfresh. apply rows_fit_true in Hfit as [H1 H2].
-    rewrite solve_rows by assumption. unfold spec_rows. now rewrite step_of_fresh by assumption.
+    intros Hfit. apply rows_fit_true in Hfit as [H1 H2].
+    rewrite solve_rows by assumption. reflexivity.
   Qed.
 
   Theorem spec_rows_length s T dt dts y0 c0 t0 : length (spec_rows f s T dt dts y0 c0 t0) = rnd (T / dts).
   Proof. unfold spec_rows. now rewrite map_length, seq_length. Qed.
 
   Theorem spec_rows_nth s T dt dts y0 c0 t0 k : k < rnd (T / dts) ->
-    nth k (spec_rows f s T dt dts y0 c0 t0) [] = fst (traj (step_of f s false dt) t0 0 y0 c0 (k * rnd (dts / dt))).
+    nth k (spec_rows f s T dt dts y0 c0 t0) [] = fst (traj (step_of f s dt) t0 0 y0 c0 (k * rnd (dts / dt))).
   Proof.
     intros Hk. unfold spec_rows.
-    set (g := fun k => fst (traj (step_of f s false dt) t0 0 y0 c0 (k * rnd (dts / dt)))).
+    set (g := fun k => fst (traj (step_of f s dt) t0 0 y0 c0 (k * rnd (dts / dt)))).
     rewrite (nth_indep _ [] (g 0)) by (now rewrite map_length, seq_length).
     rewrite map_nth.
     now rewrite seq_nth by assumption.
@@ -228,28 +224,28 @@ Section SolveProofs.
     unfold frame, times. rewrite combine_map_seq, filter_map, map_map. cbn [fst snd]. reflexivity.
   Qed.
 
-  Theorem run_partial s aliased T dt dts cutoff cols y0 c0 :
+  Theorem run_partial s T dt dts cutoff cols y0 c0 :
     let d := match dts with Some d => d | None => dt end in
-    rows_fit T dt d = true -> heun_rhs_fresh s aliased = true -> frame_ok T d (length cols) = true ->
-    run_model f s aliased T dt dts cutoff cols y0 c0 = Rows (spec_run f s T dt dts cutoff cols y0 c0).
+    rows_fit T dt d = true -> frame_ok T d (length cols) = true ->
+    run_model f s T dt dts cutoff cols y0 c0 = Rows (spec_run f s T dt dts cutoff cols y0 c0).
   Proof.
-    intros d Hfit Hfresh Hok. unfold run_model, spec_run. fold d.
+    intros d Hfit Hok. unfold run_model, spec_run. fold d.
     rewrite solve_partial by assumption. unfold frame_ok in Hok. apply andb_prop in Hok as [Hn H1].
     destruct (rnd (T / d) =? 0) eqn:E0; [lia|]. rewrite negb_true_iff in H1. rewrite H1.
     unfold spec_rows. now rewrite frame_of_maps.
   Qed.
 
   (* the loud classes of run() *)
-  Theorem run_index_error s aliased T dt dts cutoff cols y0 c0 :
+  Theorem run_index_error s T dt dts cutoff cols y0 c0 :
     let d := match dts with Some d => d | None => dt end in
     1 <= rnd (d / dt) -> rnd (T / d) < cdiv (rnd (T / dt)) (rnd (d / dt)) ->
-    run_model f s aliased T dt dts cutoff cols y0 c0 = ErrIndex.
+    run_model f s T dt dts cutoff cols y0 c0 = ErrIndex.
   Proof. intros d H1 H2. unfold run_model. fold d. now rewrite solve_index_error. Qed.
 
-  Theorem run_single_row_shape_error s aliased T dt dts cutoff cols y0 c0 :
+  Theorem run_single_row_shape_error s T dt dts cutoff cols y0 c0 :
     let d := match dts with Some d => d | None => dt end in
     rows_fit T dt d = true -> rnd (T / d) = 1 -> 2 <= length cols ->
-    run_model f s aliased T dt dts cutoff cols y0 c0 = ErrShape.
+    run_model f s T dt dts cutoff cols y0 c0 = ErrShape.
   Proof.
     intros d Hfit Hn Hc. unfold run_model. fold d. apply rows_fit_true in Hfit as [H1 H2].
     rewrite solve_rows by assumption. rewrite Hn. cbn [Nat.eqb andb].
@@ -261,7 +257,7 @@ Section SolveProofs.
     let d := match dts with Some d => d | None => dt end in
     In r (spec_run f s T dt dts cutoff cols y0 c0) <->
     exists k, k < rnd (T / d) /\ (cutoff <= NtoQc k * d)%Qc /\
-              r = (NtoQc k * d)%Qc :: pick cols (fst (traj (step_of f s false dt) 0 0 y0 c0 (k * rnd (d / dt)))).
+              r = (NtoQc k * d)%Qc :: pick cols (fst (traj (step_of f s dt) 0 0 y0 c0 (k * rnd (d / dt)))).
   Proof.
     intros d. unfold spec_run. fold d. rewrite in_map_iff. split.
     - intros [k [Hr Hk]]. apply filter_In in Hk as [Hk Hc]. apply in_seq in Hk. apply Qcleb_true in Hc.
@@ -306,13 +302,13 @@ Section PureSteps.
   Proof. reflexivity. Qed.
 
   Theorem heun_step_formula dt t y :
-    fst (heun_step pure_rhs false dt tt t y) =
+    fst (heun_step pure_rhs dt tt t y) =
     vadd y (vscale (dt / Q2Qc 2)%Qc (vadd (g t y) (g t (vadd y (vscale dt (g t y)))))).
   Proof. reflexivity. Qed.
 
-  (* what the loop computes when the right-hand side returns its own buffer (generated code) *)
-  Theorem heun_step_aliased_formula dt t y :
-    fst (heun_step pure_rhs true dt tt t y) =
+  (* what the loop computed before fix D36 when the right-hand side returns its own buffer (generated code) *)
+  Theorem heun_step_before_D36_formula dt t y :
+    fst (heun_step_before_D36 pure_rhs dt tt t y) =
     let r2 := g t (vadd y (vscale dt (g t y))) in vadd y (vscale (dt / Q2Qc 2)%Qc (vadd r2 r2)).
   Proof. reflexivity. Qed.
 End PureSteps.
@@ -368,27 +364,19 @@ Definition wit_rhs2 : lin_rhs :=
 
 (* T = 5/8, dt = 1/8, dts = 1/4: 5 steps store at i = 0, 2, 4 but round(2.5) = 2 rows are allocated: IndexError *)
 Lemma refuted_index_error :
-  run_model (lin_f wit_rhs) Euler true (mkq 5 8) (mkq 1 8) (Some (mkq 1 4)) (mkq 0 1) [0] [mkq 1 1] 0 = ErrIndex /\
+  run_model (lin_f wit_rhs) Euler (mkq 5 8) (mkq 1 8) (Some (mkq 1 4)) (mkq 0 1) [0] [mkq 1 1] 0 = ErrIndex /\
   rows_fit (mkq 5 8) (mkq 1 8) (mkq 1 4) = false.
 Proof. split; vm_compute; reflexivity. Qed.
 
-(* Heun around a right-hand side that returns its own buffer: row 1 is 121/128, the Heun iterate is 241/256 *)
-Lemma refuted_heun_alias :
-  run_model (lin_f wit_rhs) Heun true (mkq 1 1) (mkq 1 4) None (mkq 0 1) [0] [mkq 1 1] 0 <>
-  Rows (spec_run (lin_f wit_rhs) Heun (mkq 1 1) (mkq 1 4) None (mkq 0 1) [0] [mkq 1 1] 0) /\
-  rows_eqb (firstn 2 match run_model (lin_f wit_rhs) Heun true (mkq 1 1) (mkq 1 4) None (mkq 0 1) [0] [mkq 1 1] 0 with
-                     | Rows l => l | _ => [] end)
-           [[mkq 0 1; mkq 1 1]; [mkq 1 4; mkq 121 128]] = true /\
-  rows_eqb (firstn 2 (spec_run (lin_f wit_rhs) Heun (mkq 1 1) (mkq 1 4) None (mkq 0 1) [0] [mkq 1 1] 0))
-           [[mkq 0 1; mkq 1 1]; [mkq 1 4; mkq 241 256]] = true /\
-  heun_rhs_fresh Heun true = false.
-Proof.
-  split; [apply outcome_neq; vm_compute; reflexivity|]. repeat split; vm_compute; reflexivity.
-Qed.
+(* what fix D36 changed: x' = -x/2 + 1/4, x = 1, dt = 1/4: Heun gives 241/256, the aliased loop gave 121/128 *)
+Lemma heun_before_D36_differs :
+  row_eqb (fst (heun_step (lin_f wit_rhs) (mkq 1 4) 0 0 [mkq 1 1])) [mkq 241 256] = true /\
+  row_eqb (fst (heun_step_before_D36 (lin_f wit_rhs) (mkq 1 4) 0 0 [mkq 1 1])) [mkq 121 128] = true.
+Proof. split; vm_compute; reflexivity. Qed.
 
 (* one stored sample, two requested columns: ValueError from the DataFrame constructor *)
 Lemma refuted_single_row :
-  run_model (lin_f wit_rhs2) Euler true (mkq 1 8) (mkq 1 8) None (mkq 0 1) [0; 1] [mkq 1 1; mkq 2 1] 0 = ErrShape /\
+  run_model (lin_f wit_rhs2) Euler (mkq 1 8) (mkq 1 8) None (mkq 0 1) [0; 1] [mkq 1 1; mkq 2 1] 0 = ErrShape /\
   frame_ok (mkq 1 8) (mkq 1 8) 2 = false.
 Proof. split; vm_compute; reflexivity. Qed.
 
